@@ -23,12 +23,140 @@ STR_METHODS = {"startswith", "endswith", "lstrip", "rstrip", "strip", "lower", "
                "splitlines", "swapcase", "title", "isidentifier"}
 
 
+_CTX: list = []      # stack of (prog, Func or Module-bearing object): enables module constants and calls of repository helpers
+_BUDGET = [0]
+
+
+class context:
+    """with context(prog, fn): names fall back to the module-level constants of fn's module, and calls of repository
+    functions are interpreted (straight-line helpers: assignments, if, for over finite collections, return)."""
+
+    def __init__(self, prog, fn):
+        self.item = (prog, fn)
+
+    def __enter__(self):
+        _CTX.append(self.item)
+        _BUDGET[0] = 200000
+        return self
+
+    def __exit__(self, *exc):
+        _CTX.pop()
+
+
+class _Return(Exception):
+    def __init__(self, value):
+        self.value = value
+
+
+class _Break(Exception):
+    pass
+
+
+class _Continue(Exception):
+    pass
+
+
+def _exec(body, env: Dict[str, Any]) -> None:
+    for st in body:
+        _BUDGET[0] -= 1
+        if _BUDGET[0] < 0:
+            raise Unsupported("step budget exhausted")
+        if isinstance(st, ast.Expr):
+            if not isinstance(st.value, ast.Constant):
+                ev(st.value, env)
+        elif isinstance(st, ast.Assign):
+            v = ev(st.value, env)
+            for t in st.targets:
+                _bind(t, v, env)
+        elif isinstance(st, ast.AnnAssign):
+            if st.value is not None:
+                _bind(st.target, ev(st.value, env), env)
+        elif isinstance(st, ast.AugAssign) and isinstance(st.target, ast.Name):
+            env[st.target.id] = ev(ast.BinOp(left=ast.Name(id=st.target.id, ctx=ast.Load()), op=st.op, right=st.value), env)
+        elif isinstance(st, ast.If):
+            _exec(st.body if ev(st.test, env) else st.orelse, env)
+        elif isinstance(st, ast.For):
+            broke = False
+            for item in ev(st.iter, env):
+                _bind(st.target, item, env)
+                try:
+                    _exec(st.body, env)
+                except _Break:
+                    broke = True
+                    break
+                except _Continue:
+                    continue
+            if not broke:
+                _exec(st.orelse, env)
+        elif isinstance(st, ast.While):
+            while ev(st.test, env):
+                _BUDGET[0] -= 1
+                if _BUDGET[0] < 0:
+                    raise Unsupported("step budget exhausted")
+                try:
+                    _exec(st.body, env)
+                except _Break:
+                    break
+                except _Continue:
+                    continue
+        elif isinstance(st, ast.Return):
+            raise _Return(ev(st.value, env) if st.value is not None else None)
+        elif isinstance(st, ast.Pass):
+            pass
+        elif isinstance(st, ast.Break):
+            raise _Break()
+        elif isinstance(st, ast.Continue):
+            raise _Continue()
+        else:
+            raise Unsupported(f"statement {type(st).__name__}")
+
+
+def call_function(prog, callee, args, kwargs) -> Any:
+    """Interpret a repository function on concrete arguments."""
+    a = callee.node.args
+    if a.vararg or a.kwarg:
+        raise Unsupported("varargs")
+    names = [x.arg for x in a.posonlyargs + a.args]
+    env: Dict[str, Any] = {}
+    _CTX.append((prog, callee))
+    try:
+        defaults = dict(zip(names[len(names) - len(a.defaults):], a.defaults)) if a.defaults else {}
+        for x, d in zip(a.kwonlyargs, a.kw_defaults):
+            if d is not None:
+                defaults[x.arg] = d
+        for n, v in zip(names, args):
+            env[n] = v
+        if len(args) > len(names):
+            raise Unsupported("too many arguments")
+        for k, v in kwargs.items():
+            env[k] = v
+        for n in names + [x.arg for x in a.kwonlyargs]:
+            if n not in env:
+                if n not in defaults:
+                    raise Unsupported(f"missing argument {n}")
+                env[n] = ev(defaults[n], {})
+        try:
+            _exec(callee.node.body, env)
+        except _Return as r:
+            return r.value
+        return None
+    finally:
+        _CTX.pop()
+
+
 def ev(e: ast.AST, env: Dict[str, Any]) -> Any:
     if isinstance(e, ast.Constant):
         return e.value
     if isinstance(e, ast.Name):
         if e.id in env:
             return env[e.id]
+        if e.id in ("None", "True", "False"):
+            return {"None": None, "True": True, "False": False}[e.id]
+        if _CTX:
+            prog, fn = _CTX[-1]
+            g = fn.mod.globals.get(e.id)
+            if g is not None:
+                return ev(g, {})
         raise Unsupported(f"name {e.id}")
     if isinstance(e, (ast.Tuple, ast.List)):
         return tuple(ev(x, env) for x in e.elts)
@@ -124,7 +252,7 @@ def ev(e: ast.AST, env: Dict[str, Any]) -> Any:
             return {"any": any, "all": all, "len": len, "tuple": tuple, "set": frozenset, "sorted": sorted, "str": str,
                     "bool": bool, "min": min, "max": max}[e.func.id](*args)
         if isinstance(e.func, ast.Attribute) and isinstance(e.func.value, ast.Name) and e.func.value.id == "re" \
-                and e.func.attr in ("match", "fullmatch", "search") and e.args and "re" not in env:
+                and e.func.attr in ("match", "fullmatch", "search", "compile", "findall", "finditer") and e.args and "re" not in env:
             args = [ev(a, env) for a in e.args]
             kw = {k.arg: ev(k.value, env) for k in e.keywords}
             return getattr(re, e.func.attr)(*args, **kw)
@@ -137,10 +265,29 @@ def ev(e: ast.AST, env: Dict[str, Any]) -> Any:
                 raise Unsupported("method on non-str")
             args = [ev(a, env) for a in e.args]
             return getattr(recv, e.func.attr)(*args)
-        if isinstance(e.func, ast.Attribute) and e.func.attr == "group":
+        if isinstance(e.func, ast.Attribute) and e.func.attr in ("group", "groups", "start", "end", "span"):
             recv = ev(e.func.value, env)
             if isinstance(recv, re.Match):
-                return recv.group(*[ev(a, env) for a in e.args])
+                return getattr(recv, e.func.attr)(*[ev(a, env) for a in e.args])
+        if isinstance(e.func, ast.Attribute) and e.func.attr in ("match", "fullmatch", "search", "findall", "finditer"):
+            try:
+                recv = ev(e.func.value, env)
+            except Unsupported:
+                recv = None
+            if isinstance(recv, re.Pattern):
+                return getattr(recv, e.func.attr)(*[ev(a, env) for a in e.args])
+        if isinstance(e.func, ast.Name) and e.func.id in ("list", "next", "iter", "enumerate", "zip", "range", "reversed", "int", "isinstance") and e.func.id not in env:
+            if e.func.id == "isinstance":
+                raise Unsupported("isinstance")
+            args = [ev(a, env) for a in e.args]
+            return {"list": list, "next": next, "iter": iter, "enumerate": enumerate, "zip": zip, "range": range, "reversed": reversed, "int": int}[e.func.id](*args)
+        if _CTX:
+            prog, fn = _CTX[-1]
+            r = prog.resolve_call(e.func, fn.mod, fn)
+            if r and r[0] == "fn" and len(_CTX) < 6:
+                if any(isinstance(a, ast.Starred) for a in e.args) or any(k.arg is None for k in e.keywords):
+                    raise Unsupported("star arguments")
+                return call_function(prog, r[1], [ev(a, env) for a in e.args], {k.arg: ev(k.value, env) for k in e.keywords})
         raise Unsupported(f"call {ast.unparse(e.func)}")
     if isinstance(e, ast.Attribute) and isinstance(e.value, ast.Name) and e.value.id == "re" and e.attr in ("I", "IGNORECASE", "S", "DOTALL", "M", "MULTILINE", "X", "VERBOSE"):
         return getattr(re, e.attr)
